@@ -28,6 +28,10 @@ Reason(e, s) ==
          ELSE IF e.len = 0 /\ e.res # "err" THEN "empty_accepted"
          ELSE IF e.len > 0 /\ e.res # "ok" THEN "nonempty_rejected"
          ELSE IF e.len > 0 /\ e.out # Inp(e) THEN "payload_changed"
+         \* "rejects nil and empty payloads", "returns any non-empty payload unchanged": also when the packet has decoded something before
+         ELSE IF e.used_res \in {"panic", "differ"} THEN "used_receiver_" \o e.used_res
+         ELSE IF e.len = 0 /\ e.used_res # "err" THEN "empty_accepted_by_a_used_receiver"
+         ELSE IF e.len > 0 /\ (e.used_res # "ok" \/ e.used_out # Inp(e)) THEN "payload_changed_by_a_used_receiver"
          ELSE IF ~(e.head /\ e.tail) THEN "partition_flags"          \* "always": also for the payloads Unmarshal rejects
          ELSE IF \E k \in 1..Len(e.heads) : ~e.heads[k] THEN "partition_head_not_always"
          ELSE IF \E k \in 1..Len(e.tails) : ~e.tails[k] THEN "partition_tail_not_always" ELSE ""
